@@ -777,10 +777,14 @@ def install(reg):
         if effect == "remove":
             if root.handles:
                 raise OutOfSubset("pointwise removal from a dict with live handles into its sections")
-            e = z3.String("e!lam")
-            t_fin = z3.Const(ctx.fresh_name("tree"), TREE)
-            ctx.assume(z3.And(KF(t_fin) == z3.Lambda([e], z3.If(ks.member(e), z3.IntVal(0), KF(t0)[e])), LF(t_fin) == LF(t0), CF(t_fin) == CF(t0)))
-            root.tree = t_fin
+            if z3.is_true(z3.simplify(ks.phi)):
+                # every key is removed: the dict is empty (what is left behind for absent keys is unobservable), i.e. the state of `{}`
+                root.tree = EMPTY
+            else:
+                e = z3.String("e!lam")
+                t_fin = z3.Const(ctx.fresh_name("tree"), TREE)
+                ctx.assume(z3.And(KF(t_fin) == z3.Lambda([e], z3.If(ks.member(e), z3.IntVal(0), KF(t0)[e])), LF(t_fin) == LF(t0), CF(t_fin) == CF(t0)))
+                root.tree = t_fin
             root.writes += 1
         interp.exec_block(node.orelse, env)
         return True
